@@ -44,10 +44,6 @@ PENDING_FINDINGS = {
     'generate:callable:instance-transfer':
         'girwriter.c never writes the instance parameter, so instance transfer-ownership="full" '
         '(SignatureBlob.instance_transfer_ownership) is lost in the generated GIR',
-    'generate:arg:nullable-out-as-allow-none':
-        'girwriter.c write_callable_info spells g_arg_info_may_be_null as the legacy allow-none="1" for every direction; '
-        'on a direction="out" parameter allow-none means OPTIONAL (scanner rule, girparser.c start_parameter), so the GIR '
-        'g-ir-generate writes for a nullable out parameter says optional and no longer says nullable',
     'generate:boxed:crash':
         'g-ir-generate aborts on every typelib that has a <glib:boxed> entry: girwriter.c write_struct_info calls '
         'g_struct_info_get_copy_function on the GI_INFO_TYPE_BOXED info, whose g_return_val_if_fail (GI_IS_STRUCT_INFO) '
@@ -1519,10 +1515,6 @@ def classify(check, d, expected_api):
     # the PENDING finding, recognised by the exact datum that is wrong and the exact wrong value
     if check == 'generate' and item == 'callable' and tok == 'instance_transfer' and (want, got) == ('2', '0'):
         return 'generate:callable:instance-transfer'
-    if check == 'generate' and item == 'arg' and 'direction=1' in (exp or ()) and 'nullable=1' in (exp or ()):
-        # a nullable out parameter comes back as allow-none="1": read as optional, not nullable
-        if (tok, want, got) in (('nullable', '1', '0'), ('optional', '0', '1')):
-            return 'generate:arg:nullable-out-as-allow-none'
     missing = 'missing' if act is None else ('unexpected' if exp is None else (tok or 'shape'))
     return '%s:%s:%s:%s' % (check, kname, item, missing)
 
